@@ -181,4 +181,44 @@ PROPS = {
         "trusted_base": TREE_TB,
         "assumptions": ["observations are taken at quiescence; 'before Ready' is judged on what Events() delivered up to that point"],
     },
+    "C05": {
+        "engines": [tree_engine("step,burst,burst", ("C05",), ("sub", "clone", "root", "mon"), 1500, 25000)],
+        "rule": "tree engine, modes step+burst: random trees of Subscribe/Clone (and the filtered constructors and monitors) up to depth 4, "
+                "server event streams with at most EventBufsiz/4 events in flight, subscriptions attached at arbitrary moments (also inside "
+                "bursts), schedule perturbation by virtual-time sleeps at the library's log calls. Every plain subscriber's drained sequence "
+                "must equal what the controller published since its attachment (per key in order, batches as multisets); the cache is read "
+                "at every observation. Non-trivial: an observation that carried events.",
+        "trusted_base": TREE_TB,
+        "assumptions": ["the subscriber keeps its backlog below EventBufsiz (harness drains at every quiescent point)"],
+    },
+    "C10": {
+        "engines": [tree_engine("overflow,overflow,stall", ("C10", "C05"), None, 400, 6000)],
+        "rule": "tree engine, modes overflow+stall: trees in which any subset of leaves (plain and filtered subscribers, monitors whose handler "
+                "blocks) never reads; streams of 70-375 events (several times EventBufsiz) paced in floods of <= EventBufsiz/4; stalled nodes "
+                "are later released or closed. Healthy subscribers must still receive everything and every cache must stay current at every "
+                "quiescent point; a released consumer must hold exactly the first EventBufsiz events offered to it (in order). "
+                "Non-trivial: an observation that carried events.",
+        "trusted_base": TREE_TB,
+        "assumptions": ["events are paced so that only the stalled consumers' own buffers can overflow"],
+    },
+    "C11": {
+        "engines": [tree_engine("step,burst,stall", ("C11",), None, 1500, 25000)],
+        "rule": "tree engine: random trees mixing all six constructors and monitors up to depth 4; every kind of node gets closed (Close on a "
+                "subscription, filtered subscription, clone, monitor; root Close or context cancel at the end), at quiescent points and inside "
+                "bursts with events / Refilter / relists in flight, with stalled consumers present. After every action the Done() of every node "
+                "and the closed-ness of every Events() channel are compared with the closed-subtree prediction, and traffic keeps flowing "
+                "through the survivors. Non-trivial: an observation that carried events.",
+        "trusted_base": TREE_TB,
+        "assumptions": ["'eventually' = at the next quiescent point in virtual time"],
+    },
+    "C16": {
+        "engines": [tree_engine("step,burst,stall", ("C16",), ("mon",), 1500, 25000)],
+        "rule": "tree engine: monitors attached under every kind of publisher at arbitrary moments (before/after readiness, inside bursts), "
+                "handlers that block (stalled) and are released later, Close at every point. The recorded callback log must be OnInitialize "
+                "(with the publisher's cache at readiness) followed by one callback per event of the matching kind and object; nothing "
+                "before OnInitialize, nothing when never ready, callbacks never overlap (the handler counts concurrent entries). "
+                "Non-trivial: an observation that carried callbacks.",
+        "trusted_base": TREE_TB,
+        "assumptions": ["untyped monitors here; typed monitors are covered with C20"],
+    },
 }
